@@ -115,6 +115,30 @@ def hex_predicates(cfg, x, y, ap):
                 if d > 10 * MARGIN * max(1.0, rho):
                     bad.append(f'gap 0: sample {[int(i), int(j)]} is in two segments and not on a shared edge')
                     break
+    # local coordinates handed to the OPD bases: the grid restricted to the window, relative to the segment centre
+    for sid, c, win, (lx, ly) in zip(ids, ap.all_centers, ap.windows, ap.local_coords):
+        if lx.shape != x[win].shape or not (np.allclose(lx, x[win] - c[0], rtol=0, atol=1e-12 * max(1.0, abs(c[0])))
+                                            and np.allclose(ly, y[win] - c[1], rtol=0, atol=1e-12 * max(1.0, abs(c[1])))):
+            bad.append(f'segment {sid}: local_coords are not (x[window] - cx, y[window] - cy)')
+            break
+    # window containment: every sample of the full grid that lies inside the segment's hexagon (beyond the boundary margin)
+    # must be inside the segment's window AND set in its local mask -- a window that cuts off a row or column of the hexagon
+    # makes the segment mask (and amp) smaller than the shape
+    w3 = math.sqrt(3)
+    a_ = cfg['D'] / 2
+    for sid, c, win, m in zip(ids, ap.all_centers, ap.windows, ap.local_masks):
+        dx_, dy_ = x - c[0], y - c[1]
+        t = (dy_, w3 / 2 * dx_ + dy_ / 2, w3 / 2 * dx_ - dy_ / 2) if cfg['rot'] == 90 else (dx_, dx_ / 2 + w3 / 2 * dy_, dx_ / 2 - w3 / 2 * dy_)
+        depth = a_ - np.maximum(np.maximum(np.abs(t[0]), np.abs(t[1])), np.abs(t[2]))
+        inside = depth > MARGIN * max(1.0, rho)
+        emb = np.zeros(x.shape, dtype=bool)
+        emb[win] = m
+        lost = inside & ~emb
+        if lost.any():
+            w_ = np.argwhere(lost)
+            bad.append(f'segment {sid}: {len(w_)} samples inside its hexagon are missing from its mask, e.g. index {w_[0].tolist()} '
+                       f'(window rows [{win[0].start},{win[0].stop}) cols [{win[1].start},{win[1].stop}): the window cuts the hexagon)')
+            break
     # documented geometry: flat-to-flat diameter D, edge-to-nearest-edge separation gap => first-ring centres at D + gap
     for sid, c in zip(ids, ap.all_centers):
         if 1 <= sid <= 6 and abs(math.hypot(c[0], c[1]) - (cfg['D'] + cfg['gap'])) > 1e-9 * max(1.0, cfg['D']):
@@ -145,7 +169,7 @@ def _hex_edge_distance(cfg, c, p):
     return a - max(abs(v) for v in t)
 
 
-def opd_predicates(ap, rng, kind='hex'):
+def opd_predicates(ap, rng, kind='hex', cart=False):
     """unit piston confined to its segment; linearity; a caller-supplied `out` buffer is accumulated into, never
     overwritten (result == out_before + compose(out=None)), also in two steps.  returns list of violations"""
     sg, ge, co, po = _impl()
@@ -153,9 +177,13 @@ def opd_predicates(ap, rng, kind='hex'):
     nseg = len(ap.segment_ids)
     if nseg == 0:
         return bad
+    XY = [(0, 0), (1, 0), (0, 1), (1, 1)]          # x^m y^n monomials; the first one is the piston
     if kind == 'hex':
         nms = [po.noll_to_nm(j) for j in (1, 2, 3, 4)]
-        ap.prepare_opd_bases(po.zernike_nm_seq, nms)
+        if cart:      # "every basis": the Cartesian (x, y) branch of prepare_opd_bases
+            ap.prepare_opd_bases(po.xy_seq, XY)
+        else:
+            ap.prepare_opd_bases(po.zernike_nm_seq, nms)
         nm = len(nms)
         ncen = 0
         compose = lambda c, cc=None, out=None: ap.compose_opd(c, out=out)                     # noqa: E731
@@ -163,8 +191,13 @@ def opd_predicates(ap, rng, kind='hex'):
     else:
         nms = [po.noll_to_nm(j) for j in (1, 2, 3)]
         nms2 = [po.xy_j_to_mn(j) for j in (1, 2, 3, 4)]
-        ap.prepare_opd_bases(po.zernike_nm_seq, nms, po.xy_seq, nms2, rotate_xyaxes=True,
-                             segment_basis_kwargs=dict(cartesian_grid=False))
+        if cart:      # Cartesian basis on the centre disc as well
+            nms = XY[:3]
+            ap.prepare_opd_bases(po.xy_seq, nms, po.xy_seq, nms2, rotate_xyaxes=True,
+                                 segment_basis_kwargs=dict(cartesian_grid=False))
+        else:
+            ap.prepare_opd_bases(po.zernike_nm_seq, nms, po.xy_seq, nms2, rotate_xyaxes=True,
+                                 segment_basis_kwargs=dict(cartesian_grid=False))
         nm = len(nms2)
         ncen = len(nms)
         cz = np.zeros(ncen)
@@ -200,7 +233,7 @@ def opd_predicates(ap, rng, kind='hex'):
         c[t, 0] = 1.0
         win, m = masks[t]
         out = onto_background(f'piston on segment index {t}', c, None)
-        confined(f'segment index {t}', out, win, m, exact=(kind == 'hex'))
+        confined(f'segment index {t}', out, win, m, exact=(kind == 'hex'))   # both hex bases start with the piston
     if kind != 'hex':
         cc = np.zeros(ncen)
         cc[0] = 1.0                                # Noll 1: piston on the central disc
@@ -265,6 +298,60 @@ def key_predicates(cfg, x, y, ap):
     miss = ap.amp & (count == 0)
     if miss.any():
         bad.append(f'{int(miss.sum())} transmitting samples of the aperture mask belong to no segment')
+    # analytic polar oracle, sample for sample on the FULL grid (samples within the margin of a boundary are undecided):
+    # centre disc r <= ccd/2; keystone j of a ring: rin < r <= rout and angle in the open interval (lo_j, lo_j + arc) mod 2pi;
+    # amp: centre disc, or a ring annulus minus the strips of half-width gap/2 along each seam ray (the spiders)
+    mg = MARGIN * max(1.0, cfg['diameter'])
+    rr_ = np.hypot(x, y)
+    tt_ = np.arctan2(y, x)
+    two_pi = 2 * np.pi
+
+    def emb(win, m):
+        e = np.zeros(x.shape, dtype=bool)
+        e[win] = m
+        return e
+
+    def cmp_mask(name, got, exp, near):
+        dec = ~near
+        if not np.array_equal(got[dec], exp[dec]):
+            w_ = np.argwhere(dec & (got != exp))
+            extra = int((got & ~exp & dec).sum())
+            bad.append(f'{name}: {len(w_)} samples differ from the analytic shape ({extra} extra, {len(w_) - extra} missing), e.g. index {w_[0].tolist()}')
+
+    rc = cfg['ccd'] / 2
+    cmp_mask('centre disc', emb(ap.center_window, ap.center_mask), rr_ <= rc, np.abs(rr_ - rc) < mg)
+    amp_exp = rr_ <= rc
+    amp_near = np.abs(rr_ - rc) < mg
+    rout_ = rc
+    k_ = 0
+    rots = cfg['rotation'] if cfg['rotation'] is not None else [None] * cfg['rings']
+    for nseg, rot in zip(cfg['spr'], rots):
+        rin_ = rout_ + cfg['gap']
+        rout_ = rin_ + cfg['ring_radius']
+        arc = two_pi / nseg
+        rot_deg = 360.0 / nseg if rot is None else rot
+        ann = (rr_ > rin_) & (rr_ <= rout_)
+        ann_near = (np.abs(rr_ - rin_) < mg) | (np.abs(rr_ - rout_) < mg)
+        strips = np.zeros(x.shape, dtype=bool)
+        strips_near = np.zeros(x.shape, dtype=bool)
+        for j in range(nseg):
+            lo_ = np.radians(j * 360.0 / nseg + rot_deg) - np.pi
+            d = np.mod(tt_ - lo_, two_pi)
+            sec = (d > 0) & (d < arc)
+            sec_near = (np.minimum(np.minimum(d, np.abs(d - arc)), two_pi - d) * rr_ < mg)
+            if k_ < len(ap.segment_masks):
+                cmp_mask(f'keystone {k_}', emb(ap.segment_windows[k_], ap.segment_masks[k_]), ann & sec, ann_near | sec_near)
+            k_ += 1
+            beta = lo_ + arc
+            along = x * np.cos(beta) + y * np.sin(beta)
+            perp = -x * np.sin(beta) + y * np.cos(beta)
+            strips |= (along > 0) & (np.abs(perp) < cfg['gap'] / 2)
+            strips_near |= (np.abs(np.abs(perp) - cfg['gap'] / 2) < mg) & (along > -mg) | (np.abs(along) < mg) & (np.abs(perp) < cfg['gap'] / 2 + mg)
+        amp_exp |= ann & ~strips
+        amp_near |= ann_near | (strips_near & (rr_ > rin_ - mg) & (rr_ <= rout_ + mg))
+        if len(bad) > 3:
+            break
+    cmp_mask('aperture mask (amp)', ap.amp, amp_exp, amp_near)
     # every segment's radial extent: rin < r <= rout of its ring (analytic oracle), ring by ring
     r = np.hypot(x, y)
     rout = cfg['ccd'] / 2
@@ -458,9 +545,10 @@ def correspondence(ctx):
             ctx.hist['compose_opd:skipped-empty-window'] += 1
         elif len(jobs2) % 3 == 0 or cfg['shape'][0] <= 64:
             try:
-                for b in opd_predicates(ap, rng)[:1]:
-                    ctx.pred_fail('compose_opd', case, b)
-                ctx.case('compose_opd', case, tag='hex')
+                cart = bool(len(jobs2) % 2)
+                ctx.case('compose_opd', case, tag='hex/' + ('xy' if cart else 'zernike'))
+                for b in opd_predicates(ap, rng, cart=cart)[:1]:
+                    ctx.pred_fail('compose_opd', {**case, 'basis': 'xy' if cart else 'zernike'}, b)
             except Exception as ex:
                 ctx.pred_fail('compose_opd', case, f'raised {type(ex).__name__}: {ex}')
 
@@ -570,6 +658,26 @@ def correspondence(ctx):
         for b in prim_predicates(kind, case, m.astype(bool), x, y)[:1]:
             ctx.pred_fail(kind, case, b)
 
+    # ---------------- primitives whose coordinates the code rotates / shifts itself: independent analytic oracle with a margin band
+    for i in range(ctx.scale(40, 600)):
+        n = int(rng.choice([31, 32, 48, 63]))
+        shape = (n, n + (i % 3) - 1)
+        x, y = co.make_xy_grid(shape, diameter=2)
+        which = i % 3
+        if which == 0:
+            case = {'prim': 'spider', 'shape': list(shape), 'vanes': int(rng.integers(1, 7)), 'width': float(rng.uniform(0.03, 0.3)),
+                    'rotation': float(rng.uniform(-180, 180)), 'center': [float(v) for v in rng.uniform(-0.4, 0.4, 2)] if i % 2 else [0.0, 0.0],
+                    'rad': bool(i % 4 == 1)}
+        elif which == 1:
+            case = {'prim': 'rectangle', 'shape': list(shape), 'width': float(rng.uniform(0.1, 0.9)),
+                    'height': None if i % 4 == 1 else float(rng.uniform(0.1, 0.9)), 'angle': float(rng.choice([0.0, 90.0, 30.0, -17.5, 45.0, 135.0]))}
+        else:
+            case = {'prim': 'offset_circle', 'shape': list(shape), 'radius': float(rng.uniform(0.1, 0.8)),
+                    'center': [float(v) for v in rng.uniform(-0.5, 0.5, 2)]}
+        ctx.case('geometry_oracle', case, tag=case['prim'])
+        for b in geometry_oracle(case)[:1]:
+            ctx.pred_fail('geometry_oracle', case, b)
+
     # ---------------- polygons (qhull) against the half-plane oracle; monotone; symmetric
     for i in range(ctx.scale(60, 2000)):
         n = int(rng.choice([48, 63, 64]))
@@ -596,11 +704,75 @@ def correspondence(ctx):
             ctx.pred_fail('keystone', cfg, b)
         if True:
             try:
-                for b in opd_predicates(ap, rng, kind='key')[:1]:
-                    ctx.pred_fail('compose_opd', cfg, b)
-                ctx.case('compose_opd', cfg, tag='keystone')
+                cart = bool(i % 2)
+                ctx.case('compose_opd', cfg, tag='keystone/' + ('xy' if cart else 'zernike'))
+                for b in opd_predicates(ap, rng, kind='key', cart=cart)[:1]:
+                    ctx.pred_fail('compose_opd', {**cfg, 'basis': 'xy' if cart else 'zernike'}, b)
             except Exception as ex:
-                ctx.pred_fail('compose_opd', cfg, f'keystone compose raised {type(ex).__name__}: {ex}')
+                ctx.pred_fail('compose_opd', {**cfg, 'basis': 'xy' if i % 2 else 'zernike'}, f'keystone compose raised {type(ex).__name__}: {ex}')
+
+    _floors(ctx)
+
+
+def geometry_oracle(case):
+    """spider(center, rotation, rotation_is_rad) / rectangle(any angle, height=None) / offset_circle on the real code against
+    formulas that do not use the code's polar helpers; samples within the margin of a boundary are undecided"""
+    sg, ge, co, po = _impl()
+    x, y = co.make_xy_grid(tuple(case['shape']), diameter=2)
+    mg = 1e-9
+    if case['prim'] == 'spider':
+        rot = case['rotation']
+        m = ge.spider(case['vanes'], case['width'], x, y, rotation=np.radians(rot) if case['rad'] else rot,
+                      center=tuple(case['center']), rotation_is_rad=case['rad'])
+        blocked = np.zeros(x.shape, dtype=bool)
+        near = np.zeros(x.shape, dtype=bool)
+        xs, ys = x - case['center'][0], y - case['center'][1]
+        for k in range(case['vanes']):
+            phi = np.radians(rot) - 2 * np.pi * k / case['vanes']        # the k-th vane points along this direction
+            along = xs * np.cos(phi) + ys * np.sin(phi)
+            perp = -xs * np.sin(phi) + ys * np.cos(phi)
+            blocked |= (along > 0) & (np.abs(perp) < case['width'] / 2)
+            near |= (np.abs(np.abs(perp) - case['width'] / 2) < mg) | (np.abs(along) < mg)
+        exp, got = ~blocked, np.asarray(m, dtype=bool)
+    elif case['prim'] == 'rectangle':
+        h = case['height']
+        m = np.broadcast_to(ge.rectangle(case['width'], x, y, height=h, angle=case['angle']), x.shape)
+        h = case['width'] if h is None else h
+        a = np.radians(case['angle'])
+        xr = x * np.cos(a) - y * np.sin(a)          # the code turns the coordinates by +angle
+        yr = x * np.sin(a) + y * np.cos(a)
+        if case['angle'] == 90.0:
+            xr, yr = y, x                            # documented shortcut: swap the axes
+        exp = (np.abs(xr) <= case['width']) & (np.abs(yr) <= h)
+        near = (np.abs(np.abs(xr) - case['width']) < mg) | (np.abs(np.abs(yr) - h) < mg)
+        got = np.asarray(m, dtype=bool)
+    else:
+        m = ge.offset_circle(case['radius'], x, y, tuple(case['center']))
+        d = np.hypot(x - case['center'][0], y - case['center'][1])
+        exp, near, got = d <= case['radius'], np.abs(d - case['radius']) < mg, np.broadcast_to(np.asarray(m, dtype=bool), x.shape)
+    if got.shape != exp.shape:
+        return [f'{case["prim"]}: mask shape {got.shape} != grid shape {exp.shape}']
+    dec = ~near
+    if not np.array_equal(got[dec], exp[dec]):
+        w_ = np.argwhere(dec & (got != exp))
+        return [f'{case["prim"]}: {len(w_)} samples on the wrong side of the analytic boundary, e.g. index {w_[0].tolist()}']
+    return []
+
+
+def _floors(ctx):
+    """a run must not hollow out silently: too few executed cases is a TOOL error, not a pass"""
+    h, it = ctx.hist, ctx.items
+    nh = it.get('hex_aperture', 0)
+    opd = sum(v for k, v in h.items() if k.startswith('compose_opd:hex/'))
+    need = {'hex_mask': 2 * nh, 'keystone': 9, 'geometry_oracle': 30, 'regular_polygon': 30, 'window': 500}
+    low = {k: (it.get(k, 0), v) for k, v in need.items() if it.get(k, 0) < v}
+    if opd < 0.25 * nh:
+        low['compose_opd:hex'] = (opd, int(0.25 * nh))
+    for k in ('compose_opd:keystone/xy', 'compose_opd:keystone/zernike', 'compose_opd:hex/xy', 'compose_opd:hex/zernike'):
+        if h.get(k, 0) < 2:
+            low[k] = (h.get(k, 0), 2)
+    if low:
+        raise C.ToolError(f'C18 correspondence executed too few cases (got, floor): {low}')
 
 
 def prim_predicates(kind, case, m, x, y):
@@ -718,7 +890,8 @@ def _eval(item, case):
             # unless the window is clamped by the array
         if not any(w[0].stop == w[0].start or w[1].stop == w[1].start for w in ap.windows):
             try:
-                bad += opd_predicates(ap, rng)
+                for cart in ((case.get('basis') == 'xy',) if 'basis' in case else (False, True)):
+                    bad += opd_predicates(ap, rng, cart=cart)
             except Exception as ex:
                 bad.append(f'compose_opd raised {type(ex).__name__}: {ex}')
         return bad
@@ -729,7 +902,8 @@ def _eval(item, case):
             return [f'constructor raised {type(ex).__name__}: {ex}']
         bad = key_predicates(case, x, y, ap)
         try:
-            bad += opd_predicates(ap, rng, kind='key')
+            for cart in ((case.get('basis') == 'xy',) if 'basis' in case else (False, True)):
+                bad += opd_predicates(ap, rng, kind='key', cart=cart)
         except Exception as ex:
             bad.append(f'compose_opd raised {type(ex).__name__}: {ex}')
         return bad
@@ -747,6 +921,8 @@ def _eval(item, case):
         return [] if ok else [f'window {sx}, {sy} is not a valid slice of a {n2}x{n} array']
     if item == 'regular_polygon':
         return polygon_predicates(case)
+    if item == 'geometry_oracle':
+        return geometry_oracle(case)
     if item in ('circle', 'annulus', 'rect', 'ellipse', 'spider'):
         shape = tuple(case['shape'])
         x, y = co.make_xy_grid(shape, diameter=2)
@@ -819,6 +995,9 @@ def search(ctx, hints):
         cands.append(('spider', {'shape': shape, 'vanes': 3, 'width': 0.2, 'rotation': 0.0}))
     for sides in (3, 4, 6):
         cands.append(('regular_polygon', {'n': 32, 'sides': sides, 'radius': 0.7, 'rotation': 0.0, 'center': [0.0, 0.0]}))
+    cands.append(('geometry_oracle', {'prim': 'spider', 'shape': [32, 33], 'vanes': 3, 'width': 0.2, 'rotation': 25.0, 'center': [0.25, -0.1], 'rad': False}))
+    cands.append(('geometry_oracle', {'prim': 'rectangle', 'shape': [32, 33], 'width': 0.6, 'height': 0.3, 'angle': 30.0}))
+    cands.append(('geometry_oracle', {'prim': 'offset_circle', 'shape': [32, 33], 'radius': 0.4, 'center': [0.25, -0.1]}))
     cands.append(('keystone', {'n': 128, 'diameter': 8.0, 'ccd': 2.4, 'rings': 2, 'spr': [6, 12], 'ring_radius': 0.9, 'gap': 0.05, 'rotation': None}))
     for d in list(hints.get('pred_failures', [])) + list(hints.get('disagreements', [])):
         if isinstance(d.get('case'), dict):
@@ -849,24 +1028,31 @@ def replay(inp):
 
 MANIFEST_ENTRY = {
     'technique': 'Lean 4 proof (list induction / omega / ordered-field algebra over translator-generated glue) + '
-                 'sample-for-sample correspondence with the Lean model and predicate checks on the real apertures',
-    'text': ('PARTIAL.  Machine-checked, for every ring number k: hex_ring(k) (generated from the source loops) has 6k pairwise '
-             'distinct cells with q+r+s=0 at cube distance k, rings are mutually disjoint, ids run 1+3i(i-1)..3i(i+1) so R rings '
-             'give 1+3R(R+1) segments before exclusion; for every pair of distinct lattice cells, every diameter D>0, gap>0 and '
-             'both orientations the two closed hexagons (intersection of three slabs, centres from the generated hex_to_xy) have '
-             'no common point; apothem = D/2 and the clear gap between neighbours equals the requested separation; the six polygon '
-             'vertices handed to qhull are the corners of that slab hexagon; the generated window clamp always yields '
-             '0<=lo<=hi<=n with at most 2s samples; compose_opd (accumulate tile*mask through windows) is linear in the '
-             'coefficients, a change on one segment is confined to that segment\'s transmitting samples, a unit piston gives '
-             'that segment\'s indicator; circle/annulus/rectangle/ellipse/vane are exactly their analytic inequalities, grow with '
-             'their size parameters and have the stated symmetries; the (unclamped) window covers every sample within +-rseg of '
-             'the segment centre except possibly one line of samples (which side depends on the parity of n); keystone sectors '
-             '(generated ring-radius recurrence and arc&angle predicate) of one ring with non-overlapping angular intervals, of '
-             'different rings, and the central disc are pairwise disjoint for every positive gap.  Compared with the real code each run: ring walks, ids '
-             'under exclusion, centres, windows (exact), hexagon masks sample for sample, composition, primitives.'),
-    'note': ('NOT proved: that qhull find_simplex equals point-in-polygon (trusted; boundary samples within 1e-7*rho excluded), '
-             'that the convex hull of the six vertices equals the slab hexagon (compared), the wrap-around branch of the keystone '
-             'angle logic and the spider cut-outs between keystones (checked only by predicates on the real objects: segment count, '
-             'no sample in two segments, every transmitting sample in a segment, radial extent), areas (numerical bound '
-             'perimeter*dx).  Segments lying entirely outside the sampled array (empty window) are out of scope.'),
+                 'sample-for-sample correspondence with the Lean model and analytic oracles on the real apertures (incl. '
+                 'composition onto a caller-supplied non-zero `out` buffer, in one and two steps)',
+    'text': ('PARTIAL.  PROPERTY THEOREMS (all inputs): hex_ring(k) (generated from the source loops) has 6k pairwise distinct cells '
+             'with q+r+s=0 at cube distance k, rings are mutually disjoint, and by induction over the generated id arithmetic R rings '
+             'give 1+3R(R+1) segments before exclusion; for every pair of distinct lattice cells, D>0, gap>0 and both orientations the '
+             'two closed slab hexagons (centres from the generated hex_to_xy) have no common point; apothem = D/2, clear gap = requested '
+             'separation; the convex hull of the six polygon vertices handed to qhull lies inside that slab hexagon (convexity proved), '
+             'so with qhull membership trusted the rasterised masks are disjoint; the generated window clamp yields 0<=lo<=hi<=n and, '
+             'with the generated samples_per_seg = floor(rseg/dx)+2, the unclamped window contains EVERY sample within +-rseg of the '
+             'segment centre for both parities; the model of compose_opd (accumulate tile*mask through windows) is linear in the '
+             'coefficients, confined to the segment, and a unit piston gives the indicator; rectangle/ellipse are their inequalities, all '
+             'primitives grow with their size parameters and have the stated symmetries; keystone sectors (no-wrap branch) of one ring, '
+             'of different rings and the central disc are pairwise disjoint for every positive gap.  TRANSLATION IDENTITIES (syntactic or '
+             'ring-normalised equalities generated = model, and Bool facts recognised in the AST; no mathematical content of their own): '
+             'gen_hex_dirs, gen_hex_ring, gen_window, gen_centres, gen_keystone, gen_structure, the circle/annulus/vane clauses of '
+             'prims_are_inequalities.  COMPARED ON THE REAL CODE each run: ring walks, ids under exclusion, centres, windows (exact), '
+             'local_coords, hexagon masks sample for sample inside the window AND window containment on the full grid, union == amp, '
+             'area bound, OPD pistons / linearity / accumulation into a non-zero out buffer with Zernike and Cartesian bases, '
+             'composition against the model; keystone apertures sample for sample against an analytic polar oracle (centre disc, every '
+             'sector incl. the wrap-around branches, amp = annuli minus the azimuthal-gap strips); primitives sample for sample, '
+             'spider(center, rotation, rotation_is_rad), rectangle(any angle, height=None), offset_circle and polygons (3..12 sides) '
+             'against independent analytic oracles.'),
+    'note': ('NOT proved: that qhull find_simplex equals hull membership (trusted; boundary samples within 1e-7*rho excluded); the '
+             'wrap-around branch of the keystone angle logic, the spider cut-outs, windows of keystones, count after exclusion, areas '
+             '(compared / numerical bound perimeter*dx only); opd_* theorems speak about the hand model of compose_opd (tie: AST fact + '
+             'driver comparison).  Segments lying entirely outside the sampled array (empty window) are out of scope.  Too few '
+             'executed cases in any stream is a tool error (floors), not a pass.'),
 }
